@@ -100,15 +100,75 @@ RAY_SOURCES: Dict[str, str] = {}
 RAY_ARRAYS: Dict[str, tuple] = {}
 
 
-def ray_loop(node: ast.AST):
-    """the `for ray in rays: light = True; for pos in ray: ...` nest of a ray-tracing function"""
+def ray_loops(node: ast.AST):
+    """every `for ray in rays: ... for pos in ray: ...` nest"""
+    out = []
     for n in ast.walk(node):
         if isinstance(n, ast.For):
             inner = [s for s in n.body if isinstance(s, ast.For)]
             if len(inner) == 1 and isinstance(inner[0].iter, ast.Name) and \
                     src(inner[0].iter) == src(n.target):
-                return n, inner[0]
+                out.append((n, inner[0]))
+    return out
+
+
+def ray_loop(node: ast.AST):
+    """the `for ray in rays: light = True; for pos in ray: ...` nest of a ray-tracing function:
+    the one that consults the cells when there are several (a separate nest may count the
+    totals, which do not depend on the grid)"""
+    nests = ray_loops(node)
+    reading = [x for x in nests if any(isinstance(n, ast.Attribute) and n.attr == 'blocks_vision'
+                                       for n in ast.walk(x[0]))]
+    if len(reading) == 1:
+        return reading[0]
+    if len(nests) == 1:
+        return nests[0]
     return None, None
+
+
+def _total_counter(index, f: Func, call: ast.Call, pname: str, gname: str) -> bool:
+    """`call` invokes a module helper h(position, area, ..) that returns a zero array in which
+    every cell of every ray of the fan from `position` over `area` is counted once per ray"""
+    if not isinstance(call.func, ast.Name) or call.keywords or len(call.args) < 2:
+        return False
+    h = f.module.functions.get(call.func.id)
+    if h is None or [src(a) for a in call.args[:2]] != [pname, f'{gname}.area']:
+        return False
+    ps = [a.arg for a in h.node.args.args]
+    outer, inner = ray_loop(h.node)
+    if outer is None or len(ps) < 2:
+        return False
+    w = walk_function(h.node)
+    if src(w.expand(outer.iter)) not in (
+            f'cached_compute_rays_fancy({ps[0]}, {ps[1]})', f'cached_compute_rays({ps[0]}, {ps[1]})',
+            f'compute_rays_fancy({ps[0]}, {ps[1]})', f'compute_rays({ps[0]}, {ps[1]})'):
+        return False
+    pos = src(inner.target)
+    inner_ids = {id(n) for n in ast.walk(inner)}
+    cnt = [e for e in w.events if e.kind in ('augstore', 'store', 'attrstore', 'call')
+           and id(e.node) in inner_ids and e.kind != 'call']
+    if len(cnt) != 1 or cnt[0].kind != 'augstore' or not isinstance(cnt[0].node.op, ast.Add) or \
+            src(cnt[0].value) != '1' or not isinstance(cnt[0].target, ast.Subscript) or \
+            src(w.expand(cnt[0].target.slice, stop=[pos])) not in (f'({pos}.y, {pos}.x)', f'{pos}.yx'):
+        return False
+    from ..guards import prop_equiv
+    if prop_equiv(w.expand_formula(strip_iter(cnt[0].guard), stop=[pos]), ('true',)) is not None:
+        return False
+    if any(isinstance(n, (ast.Break, ast.Continue)) for n in ast.walk(outer)):
+        return False
+    arr = src(cnt[0].target.value)
+    d = w.single_def(arr)
+    if d is None or d[0] != 'value' or not (isinstance(d[1], ast.Call)
+                                            and src(d[1].func) == 'np.zeros'):
+        return False
+    rets = [e for e in w.events if e.kind == 'return' and e.value is not None]
+    return len(rets) == 1 and src(rets[0].value) == arr
+
+
+def unprefix_(t: str) -> str:
+    """drop the prefixes the helper inliner gives to a helper's locals"""
+    import re
+    return re.sub(r'_[A-Za-z_]+?\d+_(?=[A-Za-z_])', '', t)
 
 
 def check_ray_function(index, rep, f: Func) -> Optional[ast.For]:
@@ -121,15 +181,33 @@ def check_ray_function(index, rep, f: Func) -> Optional[ast.For]:
         # rays counted some other way (vectorised, library call): not a verdict
         raise AnalysisError(f'{name}: no `for ray in rays: ... for pos in ray:` loop nest '
                             f'(the ray counting is outside the grammar of C06.R2)')
+    if any(isinstance(n, ast.Break) for n in ast.walk(inner)):
+        # `if opaque: break` is the light going out: read as an explicit flag
+        from ..normalise import break_to_flag
+        new = break_to_flag(inner, '__lit')
+        if new is None:
+            raise AnalysisError(f'{name}: the walk along a ray leaves the loop in a way outside '
+                                f'the grammar of C06.R2')
+        i = outer.body.index(inner)
+        outer.body[i:i + 1] = new
+        inner = new[1]
     w = walk_function(node)
     # rays come from the cached fan of the grid's area at the given position
     pname = f.node.args.args[1].arg
-    rays_src = src(w.expand(outer.iter))
+    rays_ex = w.expand(outer.iter)
+    rays_src = src(rays_ex)
+    from ..bounds import is_fan_callee
+    ok = isinstance(rays_ex, ast.Call) and not rays_ex.keywords and \
+        [src(a) for a in rays_ex.args] == [pname, f'{gname}.area'] and \
+        is_fan_callee(f.module, w, rays_ex.func)
+    if ok and not isinstance(rays_ex.func, ast.Name):
+        # a table entry: the variants are compared by the table and key they use
+        rays_src = unprefix_(rays_src)
+    elif ok:
+        d_ = w.single_def(rays_ex.func.id) if w.defs.get(rays_ex.func.id) else None
+        if d_ is not None:
+            rays_src = unprefix_(src(d_[1])) + rays_src[len(rays_ex.func.id):]
     RAY_SOURCES[name] = rays_src
-    ok = rays_src in (
-        f'cached_compute_rays_fancy({pname}, {gname}.area)',
-        f'cached_compute_rays({pname}, {gname}.area)',
-        f'compute_rays_fancy({pname}, {gname}.area)', f'compute_rays({pname}, {gname}.area)')
     rep.check(bool(ok), 'C06.R4', VIS, name, outer.lineno, rays_src,
               'the rays are not the fan from the agent position over the grid area',
               f'{name}: rays from the origin')
@@ -164,6 +242,9 @@ def check_ray_function(index, rep, f: Func) -> Optional[ast.For]:
             and id(d[1]) in inner_ids]
     upd_order = min((d[2] for d in upds), default=None)
     L = parse_guard(light)
+    # everything is stated relative to the condition of reaching the walk along a ray
+    base_defs = [d for d in w.defs.get(light, []) if d[0] == 'value' and id(d[1]) not in inner_ids]
+    base = norm(base_defs[0][3]) if base_defs else ('true',)
     lit_counts = []
     for e in counts:
         v = e.value
@@ -175,7 +256,7 @@ def check_ray_function(index, rep, f: Func) -> Optional[ast.For]:
             eff = g
         else:
             continue
-        if prop_equiv(eff, L) is None:
+        if prop_equiv(f_and(base, eff), f_and(base, L)) is None:
             lit_counts.append(e)
     rep.check(len(lit_counts) >= 1 and upd_order is not None and
               all(e.order < upd_order for e in lit_counts), 'C06.R2', VIS, name,
@@ -185,9 +266,35 @@ def check_ray_function(index, rep, f: Func) -> Optional[ast.For]:
     for e in lit_counts:
         rep.holds('C06.R2', f'{VIS}:{name}:{e.line}', f'lit count `{src(e.stmt)}`')
     totals = [e for e in counts if isinstance(e.node.op, ast.Add) and src(e.value) == '1'
-              and prop_equiv(norm(e.guard), ('true',)) is None]
-    RAY_ARRAYS[name] = (src(lit_counts[0].target.value) if lit_counts else None,
-                        src(totals[0].target.value) if totals else None)
+              and prop_equiv(f_and(base, norm(e.guard)), base) is None]
+    den = src(totals[0].target.value) if totals else None
+    if den is None:
+        # a second nest over the same fan that counts every cell of every ray
+        for o2, i2 in ray_loops(node):
+            if o2 is outer or src(w.expand(o2.iter)) != rays_src or \
+                    any(isinstance(n, (ast.Break, ast.Continue)) for n in ast.walk(o2)):
+                continue
+            p2 = src(i2.target)
+            ids2 = {id(n) for n in ast.walk(i2)}
+            ev2 = [e for e in w.events if e.kind in ('augstore', 'store', 'attrstore')
+                   and id(e.node) in ids2]
+            if len(ev2) == 1 and ev2[0].kind == 'augstore' and \
+                    isinstance(ev2[0].node.op, ast.Add) and src(ev2[0].value) == '1' and \
+                    isinstance(ev2[0].target, ast.Subscript) and \
+                    src(w.expand(ev2[0].target.slice, stop=[p2])) in (f'({p2}.y, {p2}.x)',
+                                                                       f'{p2}.yx') and \
+                    prop_equiv(w.expand_formula(strip_iter(ev2[0].guard), stop=[p2]),
+                               ('true',)) is None:
+                den = src(ev2[0].target.value)
+    if den is None:
+        # the totals do not depend on the grid: they may come from a (memoised) helper that
+        # counts every cell of every ray of the same fan
+        for n_, ds in w.defs.items():
+            for d in ds:
+                if d[0] == 'value' and isinstance(d[1], ast.Call) and \
+                        _total_counter(index, f, d[1], pname, gname):
+                    den = n_
+    RAY_ARRAYS[name] = (src(lit_counts[0].target.value) if lit_counts else None, den)
     if upds:
         # the light after the cell, as a function of (light, opacity of the cell)
         bad = None
@@ -196,7 +303,9 @@ def check_ray_function(index, rep, f: Func) -> Optional[ast.For]:
             val = w.expand(d[1], stop=[pos, light])
             alts.append((norm(d[3]), formula_of(val)))
         want = parse_guard(f'{light} and not {BV}')
-        for asg in prop_assignments(want, *[x for a in alts for x in a]):
+        for asg in prop_assignments(want, base, *[x for a in alts for x in a]):
+            if not prop_truth(base, asg):
+                continue
             new = asg[light]
             for g, v in alts:
                 if prop_truth(g, asg):
@@ -397,7 +506,10 @@ def run(index: RepoIndex, rep) -> None:
     w = walk_function(inlined_function(index, rt)[0])
     rets = [e for e in w.events if e.kind == 'return' and e.value is not None]
     for r in rets:
-        for ex, g in alts(w.expand(r.value), strip_iter(r.guard)):
+        # a single return is reached whenever the function returns at all: its own path
+        # condition (validation raises of helpers) is not part of the decision
+        g0 = ('true',) if len(rets) == 1 else strip_iter(r.guard)
+        for ex, g in alts(w.expand(r.value), g0):
             seen.add((unprefix(show(g)), unprefix(src(ex))))
     num, den = (unprefix(x) if x else x for x in RAY_ARRAYS.get('raytracing', (None, None)))
     want = {('absolute_counts', f'{num} >= threshold'),
